@@ -21,12 +21,20 @@ import math
 from symx.core import Violation, chk
 from symx.vloop import CycleBudget, Deadlock, VLoop
 
+def _leaves(eg):
+    for x in eg.exceptions:
+        if isinstance(x, BaseExceptionGroup):
+            yield from _leaves(x)
+        else:
+            yield x
+
+
 K_CYCLES = 4  # "small bounded number of event-loop cycles" for delivery (measured: <= 2 on the unchanged tree)
 INF = 1 << 20
 
 
 def scn(sym, cov, props, D, T=2, cancel=None, cancel2=None, toggle=None, stubborn=None, deadlines=(), redeadline=None,
-        shields="sym", in_child=False, eager=False, J=2, pre_cancel=None, helper=None, native_after=False, post0=False, redeadline2=False, script=()):
+        shields="sym", in_child=False, eager=False, J=2, pre_cancel=None, helper=None, native_after=False, post0=False, redeadline2=False, script=(), raise_at=None):
     """props: set of property ids whose clauses are enforced.
     cancel / cancel2: level whose scope is cancelled by the environment at a symbolic instant (or None)
     toggle: (level, value): scope[level].shield = value at a symbolic instant
@@ -34,7 +42,10 @@ def scn(sym, cov, props, D, T=2, cancel=None, cancel2=None, toggle=None, stubbor
     shields: 'sym' (every level's initial shield flag symbolic) | tuple of bools
     pre_cancel: level cancelled BEFORE it is entered (by the task itself)
     helper: None | 'move_on_after' | 'fail_after' | 'move_on_at' | 'fail_at' -- level D-1 is created through that helper (needs deadlines=(D-1,))
-    native_after: after the outermost scope, use asyncio.timeout()/Task.cancelling() (C05)"""
+    native_after: after the outermost scope, use asyncio.timeout()/Task.cancelling() (C05)
+    raise_at: (level, kind): the level's post-operation is replaced by raising -- 'value' a ValueError, 'group' an
+        ExceptionGroup holding only a ValueError, 'group+cancel' sleep(post) and, if that is interrupted, a
+        BaseExceptionGroup holding the cancellation exception and a ValueError"""
     import anyio
     from anyio import CancelScope
 
@@ -152,7 +163,21 @@ def scn(sym, cov, props, D, T=2, cancel=None, cancel2=None, toggle=None, stubbor
                     await op(i, "pre", pre[i])
                     if i + 1 < D:
                         await level(i + 1)
-                    await op(i, "post", post[i])
+                    if raise_at is not None and raise_at[0] == i:
+                        kind = raise_at[1]
+                        if kind == "value":
+                            ex["raised"] = "value"
+                            raise ValueError("boom")
+                        if kind == "group":
+                            ex["raised"] = "group"
+                            raise ExceptionGroup("g", [ValueError("boom")])
+                        try:
+                            await op(i, "post", post[i])
+                        except asyncio.CancelledError as cexc:
+                            ex["raised"] = "group+cancel"
+                            raise BaseExceptionGroup("g", [cexc, ValueError("boom")])
+                    else:
+                        await op(i, "post", post[i])
                 except asyncio.CancelledError:
                     ex["raised"] = "cancel"
                     raise
@@ -168,6 +193,19 @@ def scn(sym, cov, props, D, T=2, cancel=None, cancel2=None, toggle=None, stubbor
         except TimeoutError:
             ex["passed"] = False
             ex["timeout_error"] = True
+        except BaseExceptionGroup as eg:
+            leaves = list(_leaves(eg))
+            ex["passed_value"] = any(isinstance(x, ValueError) for x in leaves)
+            ex["passed"] = any(isinstance(x, asyncio.CancelledError) for x in leaves)
+            if ex["raised"] is None:
+                ex["raised"] = "from-inner:" + ("group+cancel" if ex["passed"] else "group")
+            raise
+        except ValueError:
+            ex["passed_value"] = True
+            ex["passed"] = False
+            if ex["raised"] is None:
+                ex["raised"] = "from-inner:value"
+            raise
         finally:
             sc = scopes.get(i)
             ex["caught"] = sc.cancelled_caught if sc is not None else None
@@ -199,6 +237,10 @@ def scn(sym, cov, props, D, T=2, cancel=None, cancel2=None, toggle=None, stubbor
             await level(0)
         except asyncio.CancelledError:
             state["escaped"] = True
+        except (ValueError, BaseExceptionGroup) as e_top:
+            state["escaped_value"] = True
+            if isinstance(e_top, BaseExceptionGroup) and any(isinstance(x, asyncio.CancelledError) for x in _leaves(e_top)):
+                state["escaped"] = True
         state["cancelling_after"] = asyncio.current_task().cancelling() - c0
         # residue probes (C05): later awaits run undisturbed
         for k in range(3):
@@ -312,8 +354,13 @@ def scn(sym, cov, props, D, T=2, cancel=None, cancel2=None, toggle=None, stubbor
             # latency: delivered within K cycles of the later of entry and the first effective cancellation
             k0 = effs.index(True) if any(effs) else 0
             c_first = o["cin"] if k0 == 0 else timeline[pin + k0 - 1][0]
+            t_first = o["tin"] if k0 == 0 else max(o["tin"], timeline[pin + k0 - 1][1])
             if o["cout"] - max(o["cin"], c_first) > K_CYCLES:
                 bad("C03", "cancellation-delivered-late", {"level": L, "op": o["which"], "cycles": o["cout"] - max(o["cin"], c_first)})
+            # ... and without the loop going idle in between (no virtual time passes while a task is blocked in an
+            # effectively cancelled scope), unless a shield was in force for part of the time
+            if all(effs[k0:]) and o["tout"] != t_first:
+                bad("C03", "loop-went-idle-with-a-task-blocked-in-a-cancelled-scope", {"level": L, "op": o["which"], "cancel_tick": t_first, "interrupted_tick": o["tout"]})
         else:
             # completed normally: find the first point from which the scope stayed effectively cancelled to the end
             k = None
@@ -334,6 +381,16 @@ def scn(sym, cov, props, D, T=2, cancel=None, cancel2=None, toggle=None, stubbor
         ca, shd = state_at(pout)
         cov.hit("op-completed-behind-shield", o["out"] == "done" and any(ca.get(j) for j in range(L + 1)) and not any(effs))
         cov.hit("redelivered-after-swallow", o["which"].endswith("+again") and o["out"] == "cancelled")
+    # what reached a scope's exit from a deeper level is what LEFT the next inner level
+    by_level = {e["level"]: e for e in exits}
+    for e in exits:
+        if isinstance(e.get("raised"), str) and e["raised"].startswith("from-inner"):
+            inner = by_level.get(e["level"] + 1)
+            if inner is not None:
+                if inner.get("passed") and inner.get("passed_value"):
+                    e["raised"] = "from-inner:group+cancel"
+                elif inner.get("passed_value"):
+                    e["raised"] = "from-inner:group"
     # ---- per-scope-exit clauses (C04) ---------------------------------------------------------------
     for ex in exits:
         i = ex["level"]
@@ -353,6 +410,24 @@ def scn(sym, cov, props, D, T=2, cancel=None, cancel2=None, toggle=None, stubbor
                     bad("C04", "cancelled_caught-wrong", {"level": i, "caught": ex["caught"], "passed": ex["passed"]})
             cov.hit("scope-absorbed-own-cancel", not ex["passed"])
             cov.hit("cancel-passed-through-inner-scope", ex["passed"])
+        elif ex["raised"] in ("value", "group", "from-inner:value", "from-inner:group"):
+            # exceptions other than AnyIO cancellations always pass through, and absorb nothing
+            if not ex.get("passed_value"):
+                bad("C04", "non-cancellation-exception-swallowed", {"level": i, "kind": ex["raised"]})
+            if ex["caught"]:
+                bad("C04", "cancelled_caught-although-nothing-absorbed", {"level": i, "kind": ex["raised"], "cancel_called": own})
+            cov.hit("non-cancellation-exception-through-cancelled-scope", own)
+        elif ex["raised"] in ("group+cancel", "from-inner:group+cancel"):
+            should_absorb = own and not parent_visible
+            if not ex.get("passed_value"):
+                bad("C04", "non-cancellation-exception-swallowed", {"level": i, "kind": ex["raised"]})
+            if ex["passed"] and should_absorb:
+                bad("C04", "own-cancellation-in-group-not-absorbed", {"level": i})
+            if (not ex["passed"]) and not should_absorb:
+                bad("C04", "foreign-cancellation-in-group-absorbed", {"level": i})
+            if bool(ex["caught"]) != (not ex["passed"]):
+                bad("C04", "cancelled_caught-wrong", {"level": i, "caught": ex["caught"], "passed": ex["passed"]})
+            cov.hit("cancellation-filtered-out-of-exception-group", not ex["passed"])
         else:
             if ex["caught"]:
                 bad("C04", "cancelled_caught-without-cancellation", {"level": i})
@@ -402,7 +477,11 @@ def scn(sym, cov, props, D, T=2, cancel=None, cancel2=None, toggle=None, stubbor
                 if sh0[j]:
                     inner_shield = True
             inter = [o for o in ops if o["out"] == "cancelled" and o["level"] >= i]
-            if inter and not inner_shield and toggle is None:
+            # with several deadline scopes only the one that is due first (strictly) determines the instant
+            # of the first interruption
+            earlier_other = any(j != i and ref_fire.get(j, (None, False))[0] is not None and ref_fire[j][0] <= rf for j in deadlines) \
+                or any(ref_fire.get(j, (None, False))[1] for j in deadlines if j != i)
+            if inter and not inner_shield and toggle is None and not earlier_other:
                 if inter[0]["tout"] != rf:
                     bad("C06", "deadline-fired-at-wrong-time", {"level": i, "ref": rf, "observed": inter[0]["tout"]})
             cov.hit("deadline-fired", True)
@@ -410,7 +489,9 @@ def scn(sym, cov, props, D, T=2, cancel=None, cancel2=None, toggle=None, stubbor
         if helper in ("move_on_after", "move_on_at") and i == D - 1:
             if bool(e["caught"]) != bool(fired and e["raised"] == "cancel" and not e["passed"]):
                 bad("C06", "move_on-cancelled_caught-wrong", {"caught": e["caught"], "fired": fired})
-        if helper in ("fail_after", "fail_at") and i == D - 1 and not changed:
+        # (the statement's proviso excludes a deadline reassigned AFTER it has fired; reassignments before that count)
+        changed_after_fire = rf is not None and any(x[2] == "deadline" and x[3] == i and x[1] >= rf for x in timeline)
+        if helper in ("fail_after", "fail_at") and i == D - 1 and not changed_after_fire:
             if bool(e["timeout_error"]) != bool(fired and e["raised"] == "cancel" and not e["passed"]):
                 bad("C06", "fail-helper-timeouterror-wrong", {"timeout_error": e["timeout_error"], "fired": fired, "passed": e["passed"]})
             cov.hit("fail-helper-raised-timeouterror", e["timeout_error"])
